@@ -20,8 +20,8 @@ import itertools
 import re
 from fractions import Fraction
 
-from rkstatic.x_vecexpr import (COMPS, FnView, Formula, Poly, bool_of_stmts, commute, flatten, poly, rangearg, show,
-                                strip_casts, subst, tclean, tkey, unknowns, vecshape)
+from rkstatic.x_vecexpr import (COMPS, FnView, Formula, Poly, bool_of_stmts, calls_in, commute, flatten, map_terms, poly,
+                                rangearg, show, strip_casts, subst, subst_params, tclean, tkey, unknowns, unroll, vecshape)
 from rules.C04 import Res, describe_diffs, ret_type, single_return, tdiff
 
 LEVEL = 'other'
@@ -657,7 +657,7 @@ def early_return(res, s, v, guard, value, m, b):
 
 def fam_xfmbounds(res, s, v):
     names = s.names
-    body = list(v.body())
+    body = unroll(list(v.body()))
     mi0, bi0 = s.kinds.index('affine'), s.kinds.index('range')
     # guarded early returns in front of the fold
     while body and body[0][0] == 'if' and not body[0][3] and len(body[0][2]) == 1 and body[0][2][0][0] == 'ret' \
@@ -1208,10 +1208,83 @@ RULE_OF = {'predicate': R1, 'extend': R2, 'clamp': R2, 'range constructor': R2, 
            'scale/translate': R3, 'area/volume': R3, 'xfmBounds': R4, 'intersectRayBox': R5}
 
 
+class Inliner:
+    """replaces calls of helper functions - functions of the analysed headers that the classifier does not know - by their
+    bodies with the parameters mapped, so that the caller is decided with the helper in place"""
+
+    def __init__(self, tu, f, v, files):
+        self.tu, self.f, self.v, self.files = tu, f, v, files
+        self.used = set()
+
+    def _is_helper(self, g):
+        file = self.tu.fn_file(g)
+        if file not in self.files or g['id'] == self.f['id']:
+            return False
+        fam, fn = classify(self.tu, g, signature(self.tu, g), file)
+        return fam is None
+
+    def lookup(self, name, nargs, member):
+        tu = self.tu
+        for nm, q, node in self.v.callees:
+            if nm == name:
+                g = tu.callee_fn(node)
+                if g is not None and len(g['params']) == nargs and self._is_helper(g):
+                    return g
+        cands = []
+        for g in tu.functions.values():
+            if not g['dep'] or len(g['params']) != nargs or bool(g.get('rec')) != member:
+                continue
+            if member and g.get('rec') != self.f.get('rec'):
+                continue
+            d = tu.node(g['id']) or {}
+            if (d.get('name') or g['q'].split('::')[-1]) == name and self._is_helper(g):
+                cands.append(g)
+        return cands[0] if len(cands) == 1 else None
+
+    def expr(self, t, depth=0):
+        if depth > 3:
+            return t
+
+        def f(x):
+            if x[0] == 'call' and isinstance(x[1], str):
+                g = self.lookup(x[1], len(x[2]), False)
+                if g is not None:
+                    hv = FnView(self.tu, g)
+                    body = bool_of_stmts(list(hv.body()))
+                    if body is not None and not unknowns(body):
+                        self.used.add(g['id'])
+                        self.v.callees.extend(hv.callees)
+                        return self.expr(subst_params(body, x[2]), depth + 1)
+            return x
+        return map_terms(t, f)
+
+    def stmts(self, stmts, depth=0):
+        out = []
+        for st in stmts:
+            if st[0] == 'expr' and st[1][0] == 'mcall' and st[1][2] == THIS and depth < 3:
+                g = self.lookup(st[1][1], len(st[1][3]), True)
+                if g is not None:
+                    hv = FnView(self.tu, g)
+                    hb = [x for x in hv.body() if not (x[0] == 'ret' and x[1] is None)]
+                    if hb and all(x[0] == 'expr' for x in hb) and not unknowns(hb):
+                        self.used.add(g['id'])
+                        self.v.callees.extend(hv.callees)
+                        out.extend(self.stmts([subst_params(x, st[1][3], this=THIS) for x in hb], depth + 1))
+                        continue
+            if st[0] == 'if':
+                out.append(('if', self.expr(st[1]), tuple(self.stmts(list(st[2]), depth)), tuple(self.stmts(list(st[3]), depth))))
+            elif st[0] in ('ret', 'expr') and st[1] is not None:
+                out.append((st[0], self.expr(st[1])))
+            else:
+                out.append(st)
+        return out
+
+
 def analyse(ctx, tu, label=''):
     fams, fams_typed = collections.Counter(), collections.Counter()
     counts = collections.Counter()
     uncl = 0
+    deferred, callers, inlined = [], [], set()
     for f in tu.functions.values():
         file = tu.fn_file(f)
         if file not in (RANGE_H, BOX_H, CONST_H, AFF_H):
@@ -1229,8 +1302,7 @@ def analyse(ctx, tu, label=''):
             inst = '[%s] %s' % (label.strip(), inst)
         loc = tu.fn_loc(f)
         if fam is None:
-            uncl += 1
-            ctx.undecided(R1, inst, 'function of %s not classified into any family: extend the classifier' % file, loc)
+            deferred.append((inst, loc, s.name, f, file))
             continue
         (fams if level == 'pattern' else fams_typed)[fam] += 1
         if fn is None:
@@ -1240,6 +1312,8 @@ def analyse(ctx, tu, label=''):
         v = FnView(tu, f)
         res = Res()
         try:
+            inl = Inliner(tu, f, v, (RANGE_H, BOX_H, AFF_H))
+            v._body = inl.stmts(list(v.body()))
             fn(res, s, v)
         except Exception:
             import traceback
@@ -1253,6 +1327,9 @@ def analyse(ctx, tu, label=''):
             exact_on_integers(res, tu, f, s, s.name)
         ks = keysig(s)
         counts[level] += 1
+        decided = all(it[0] == 'ok' for it in res.items)
+        for hid in inl.used:
+            callers.append((hid, inst, decided))
         for status, rule, detail, kd in res.items:
             if status == 'ok':
                 ctx.ok(rule, inst, detail, loc)
@@ -1260,6 +1337,17 @@ def analyse(ctx, tu, label=''):
                 ctx.undecided(rule, inst, detail, loc)
             else:
                 ctx.violation(rule, inst, detail, loc, key='%s|%s|%s|%s' % (rule, file, ks, kd))
+    # functions the classifier does not know: a helper takes the verdict of the classified functions it was inlined into
+    for inst, loc, name, f, file in deferred:
+        users = [(ci, okk) for hid, ci, okk in callers if hid == f['id']]
+        if users and all(okk for _, okk in users):
+            ctx.ok(R1, inst, 'helper function: inlined into %s, which %s decided with the helper body in place' % (
+                ', '.join(sorted({ci for ci, _ in users})[:3]), 'is' if len(users) == 1 else 'are'), loc)
+            fams['helper (decided through its callers)'] += 1
+        else:
+            uncl += 1
+            why = 'the functions that call it are not decided' if users else 'no classified function uses it'
+            ctx.undecided(R1, inst, 'function of %s not classified into any family (%s): extend the classifier' % (file, why), loc)
     return fams, fams_typed, uncl, counts
 
 
